@@ -31,11 +31,29 @@ def listing_chunks():
     return chunks
 
 
-def run_profiler(d, fakedir, binary, with_go=True, timeout=60):
+def small_chunks():
+    """A listing that fits the buffered writer (whole cache file < 4 KiB): everything is written by the final flush."""
+    chunks = []
+    for i, (name, nr) in enumerate(CHUNK_SYSCALLS):
+        chunks.append("\n".join(cmdfam.site_function(i, "g_%s" % name, nr, via="raw" if i % 2 == 0 else "wrapper", pad=2)) + "\n")
+    return chunks
+
+
+def run_profiler(d, fakedir, binary, with_go=True, timeout=60, fsize=None):
     # "tool missing": a PATH without any `go` (the host's real go must not be found either)
     env = {"PATH": fakedir + ":/usr/bin:/bin" if with_go else os.path.join(fakedir, "empty"), "FAKEGO_DIR": fakedir, "HOME": "/root"}
+    pre = None
+    if fsize is not None:
+        import resource
+        import signal
+
+        def pre():
+            # a write that would grow a file beyond fsize bytes fails part-way with EFBIG (disk-full / quota stand-in)
+            signal.signal(signal.SIGXFSZ, signal.SIG_IGN)
+            resource.setrlimit(resource.RLIMIT_FSIZE, (fsize, fsize))
     try:
-        p = subprocess.run([os.path.join(d, "seccomp-profiler"), "-format", "config", binary], capture_output=True, text=True, timeout=timeout, env=env, cwd="/")
+        p = subprocess.run([os.path.join(d, "seccomp-profiler"), "-format", "config", binary], capture_output=True, text=True, timeout=timeout, env=env, cwd="/",
+                           preexec_fn=pre)
     except subprocess.TimeoutExpired:
         return None
     return {"rc": p.returncode, "names": cmdfam.parse_profile_yaml(p.stdout) if p.returncode == 0 else None, "stderr": p.stderr[-600:],
@@ -111,6 +129,32 @@ def check(ctx, replay=None):
                                        "admissible": "the cold-cache profile, or an error", "how": "./check C17 quick"})
                     if len(ctx.cov["samples"]) < 3 and fate.startswith("kill"):
                         ctx.sample({"fate": fate, "rebuilt": rebuilt, "first_rc": first["rc"], "cache_after_first_run": disk, "second_used_cache": second["cached"], "second_profile": second["names"]})
+        # write failures part-way (file size limit) with a listing small enough to sit in the writer's buffer until the final flush
+        smalldir = os.path.join(d, "fakego_small")
+        cmdfam.make_fake_go(smalldir, small_chunks())
+        total = 65 + sum(len(c) for c in small_chunks())
+        cold_small = run_profiler(d, smalldir, fresh_binary("cold_small"))
+        if cold_small is None or cold_small["rc"] != 0 or sorted(cold_small["names"]) != sorted(want):
+            raise vlib.Machinery("the cold run on the small listing does not give the expected profile: %s" % (cold_small,))
+        for limit in sorted(set(list(range(0, total + 64, 96 if th else 256)) + [64, 65, 66, total - 1, total])):
+            b = fresh_binary("fsize_%d" % limit)
+            first = run_profiler(d, smalldir, b, fsize=limit)
+            second = run_profiler(d, smalldir, b)
+            ctx.cov["evaluations"] += 1
+            ctx.cov["traces_validated_against_impl"] += 1
+            ctx.cov["distinct_nontrivial"] += 1
+            if first is None or second is None:
+                ctx.skip("run under a file size limit timed out")
+                continue
+            cache = cmdfam.cache_path(b)
+            if limit < total and first["rc"] == 0:
+                ctx.violation("a write to the cache failed (file size limit %d of %d bytes) but the profiler exited with status 0" % (limit, total),
+                              {"fate": "write fails beyond %d bytes" % limit, "first_run": first, "how": "./check C17 quick"})
+            if second["rc"] == 0 and sorted(second["names"]) != sorted(want):
+                ctx.violation("after a first run whose cache write failed beyond %d of %d bytes the next run printed the profile %s; a cold-cache run gives %s"
+                              % (limit, total, second["names"], want),
+                              {"fate": "write fails beyond %d bytes" % limit, "first_run": first, "second_run": second, "cold_profile": want,
+                               "admissible": "the cold-cache profile, or an error", "how": "./check C17 quick"})
     finally:
         for c in created:
             for p in [c] + [os.path.join(os.path.dirname(c), x) for x in (os.listdir(os.path.dirname(c)) if os.path.isdir(os.path.dirname(c)) else []) if x.startswith(os.path.basename(c))]:
@@ -122,5 +166,7 @@ def check(ctx, replay=None):
                        "4096-byte buffered writer had flushed) - x binary rebuilt or not, each followed by a normal run whose printed profile is compared with a cold-cache run; "
                        "the real profiler binary with a fake `go` first on PATH serving a canned listing in chunks of > 8 KiB with one distinct syscall each; non-trivial = disturbed first run"
                        % (NCHUNKS, NCHUNKS))
+    ctx.cov["rule"] += ("; plus a listing that fits the 4 KiB write buffer with the first run under a file size limit at every ~%d bytes of the cache file "
+                        "(a write that fails part-way)" % (96 if th else 256))
     ctx.assumptions += ["crash = process death (SIGKILL), not power loss; kill points between two steps of the cache writer other than chunk boundaries are covered by the model only",
                         "the cache directory is the real ~/.seccomp-profiler with file names unique to this run (removed afterwards)"]
